@@ -128,6 +128,9 @@ fn execute(sc: &Scenario, st: &mut RunStats) -> Vec<Violation> {
     if sc.fillers >= 256 {
         st.fault("members_beyond_chunk_limit");
     }
+    if sc.fillers + n * if sc.duplicate_all { 2 } else { 1 } == 256 {
+        st.fault("batch_fills_exactly_one_chunk");
+    }
     if sc.owner_mode {
         st.fault("owner_mode_recover_and_verify");
     }
@@ -397,10 +400,14 @@ impl Check for C08 {
         let fillers = match rng.below(24) {
             0 => 256,
             1 => rng.range(257, 300) as usize,
+            // exactly one full chunk: the last member sits at position 255
+            2 | 3 => usize::MAX,
             _ => 0,
         };
-        let fillers = if fillers > 0 && tier == Tier::Thorough && rng.chance(1, 4) { 512 + rng.usize_below(8) } else { fillers };
-        Scenario { bits, ext, members, i, j, l: rng.usize_below(n), k: rng.usize_below(ext), c_seed: rng.next_u64(), moves, fillers, owner_mode, duplicate_all: rng.chance(1, 6) }
+        let fillers = if fillers > 0 && fillers != usize::MAX && tier == Tier::Thorough && rng.chance(1, 4) { 512 + rng.usize_below(8) } else { fillers };
+        let duplicate_all = rng.chance(1, 6);
+        let fillers = if fillers == usize::MAX { 256 - n * if duplicate_all { 2 } else { 1 } } else { fillers };
+        Scenario { bits, ext, members, i, j, l: rng.usize_below(n), k: rng.usize_below(ext), c_seed: rng.next_u64(), moves, fillers, owner_mode, duplicate_all }
     }
 
     fn execute(&self, sc: &Scenario, st: &mut RunStats) -> Vec<Violation> {
@@ -468,7 +475,7 @@ impl Check for C08 {
     fn required_probes(&self, _tier: Tier) -> Vec<&'static str> {
         vec![
             "adaptive_cancel_pair", "adaptive_touch_r1", "adaptive_touch_s1", "adaptive_permute", "adaptive_cancel_triple",
-            "resubmit", "ratio_checked_after_response_change", "members_beyond_chunk_limit", "owner_mode_recover_and_verify", "every_member_submitted_twice",
+            "resubmit", "ratio_checked_after_response_change", "members_beyond_chunk_limit", "batch_fills_exactly_one_chunk", "owner_mode_recover_and_verify", "every_member_submitted_twice",
         ]
     }
 }
